@@ -25,7 +25,9 @@ ASSUMPTIONS = [
     "'rejected' (velocity, channel, malformed names) means: the call raises an exception (any type; the type is "
     "recorded as an outcome) and does not return a note; in-range velocity/channel must be accepted and read back",
     "malformed names are strings that no reading could accept: strings starting with a lower-case a-g (possible "
-    "lower-case names) and strings that become well-formed when blanks are removed are not judged",
+    "lower-case names), strings that become well-formed when blanks are removed, scientific forms ('C4') and "
+    "negative-octave texts ('C--1') are not judged; 'H' is judged (the library's own suite requires its rejection)",
+    "the oracle never relies on the return value of set_note/from_int/from_hertz/from_shorthand, only on the note's state",
     "Hz: only what the statement says is required -- a factor 2 per octave (rel. 1e-12), A-4 = standard pitch "
     "(rel. 1e-12) and the Hz round trip on a cent grid (a cent = factor 2**(1/1200)); equal temperament between "
     "those anchors is not demanded",
@@ -55,6 +57,7 @@ def number_of(n):
 # ---------------------------------------------------------------------------------------
 def run_pitch(case):
     S = engine.S
+    S.sample(case)
     name, octave = case
     want = R.pitch_number(name, octave)
     n = Note(name, octave)
@@ -81,7 +84,9 @@ def run_pitch(case):
     # (a) from the integer
     if want >= 0:
         same_pitch("Note(int(n))", Note(want))
-        same_pitch("Note().from_int(int(n))", Note().from_int(want))
+        m = Note()
+        m.from_int(want)
+        same_pitch("Note().from_int(int(n))", m)
         m = Note("D", 1)
         m.from_int(want)
         same_pitch("from_int on an existing note", m)
@@ -92,7 +97,9 @@ def run_pitch(case):
     # (b) from the 'Name-octave' text
     text = "%s-%d" % (name, octave)
     same_pitch("Note(%r)" % text, Note(text))
-    same_pitch("Note().set_note(%r)" % text, Note().set_note(text))
+    m = Note()
+    m.set_note(text)
+    same_pitch("Note().set_note(%r)" % text, m)
     m = Note("D", 1)
     m.set_note(text)
     same_pitch("set_note(%r) on an existing note" % text, m)
@@ -131,8 +138,11 @@ def run_pitch(case):
 
 def run_from_int(case):
     S = engine.S
+    S.sample(case)
     i = case
-    for site, m in (("Note(%d)" % i, Note(i)), ("Note().from_int(%d)" % i, Note().from_int(i))):
+    fresh = Note("D", 1)
+    fresh.from_int(i)
+    for site, m in (("Note(%d)" % i, Note(i)), ("Note('D', 1).from_int(%d)" % i, fresh)):
         if number_of(m) != i:
             S.problem(site, i, number_of(m), detail={"note": attrs(m)})
         elif int(m) != i:
@@ -158,6 +168,7 @@ def _pair_universe(olo, ohi):
 
 def run_compare(case):
     S = engine.S
+    S.sample(case)
     name, octave, olo, ohi = case
     a = Note(name, octave)
     ia = R.pitch_number(name, octave)
@@ -182,6 +193,7 @@ def run_compare(case):
 def run_sorting(case):
     """sorted()/list.sort() on a permutation of the whole note universe orders by pitch number."""
     S = engine.S
+    S.sample(case)
     olo, ohi, stride = case
     uni = _pair_universe(olo, ohi)
     k = len(uni)
@@ -222,6 +234,7 @@ def cents_grid(step):
 
 def run_hertz(case):
     S = engine.S
+    S.sample(case)
     kind = case[0]
     if kind == "int":
         _, i, sp, step = case
@@ -249,11 +262,9 @@ def run_hertz(case):
         # round trip, detuned
         for c in cents_grid(step):
             f = R.detune(h, c)
-            m = Note("D", 1).from_hertz(f, sp)
+            m = Note("D", 1)
+            m.from_hertz(f, sp)
             calls += 1
-            if not isinstance(m, Note):
-                S.problem("from_hertz return value", "the note", m)
-                continue
             got = number_of(m)
             if got != i:
                 S.problem("from_hertz(to_hertz(%d, %r) detuned %+g cents, %r)" % (i, sp, c, sp), i, got,
@@ -263,7 +274,8 @@ def run_hertz(case):
             else:
                 S.count("hz_round_trips_ok")
             if sp == 440 and c in (-40, 0, 40):
-                m2 = Note("D", 1).from_hertz(f)
+                m2 = Note("D", 1)
+                m2.from_hertz(f)
                 calls += 1
                 if number_of(m2) != i:
                     S.problem("from_hertz(hz) default standard pitch, %+g cents" % c, i, number_of(m2), detail={"hz": f})
@@ -304,6 +316,7 @@ def run_hertz(case):
 # ---------------------------------------------------------------------------------------
 def run_helmholtz(case):
     S = engine.S
+    S.sample(case)
     name, octave = case
     n = Note(name, octave)
     text = n.to_shorthand()
@@ -316,16 +329,15 @@ def run_helmholtz(case):
     flat = "b" in name
     tags = {"flat": flat, "octave": octave, "name": name}
     try:
-        m = Note("D", 1).from_shorthand(text)
+        m = Note("D", 1)
+        m.from_shorthand(text)
         calls += 1
     except Exception as e:                                  # noqa
         S.problem("from_shorthand(%r) [written for %s-%d]" % (text, name, octave), [name, octave],
                   "%s: %s" % (type(e).__name__, e), tags=tags)
         S.trans(calls)
         return
-    if not isinstance(m, Note):
-        S.problem("from_shorthand(%r) return value" % text, "the note", m, tags=tags)
-    elif attrs(m) != (name, octave):
+    if attrs(m) != (name, octave):
         S.problem("from_shorthand(%r) [written for %s-%d]" % (text, name, octave), [name, octave], list(attrs(m)), tags=tags)
     else:
         S.count("helmholtz_round_trips_ok")
@@ -335,7 +347,8 @@ def run_helmholtz(case):
         want = R.helmholtz_natural(name, octave)
         if text != want:
             S.problem("Note(%r, %d).to_shorthand() text" % (name, octave), want, text, tags=tags)
-        m2 = Note("D", 1).from_shorthand(want)
+        m2 = Note("D", 1)
+        m2.from_shorthand(want)
         calls += 1
         if attrs(m2) != (name, octave):
             S.problem("from_shorthand(%r) [textbook text of %s-%d]" % (want, name, octave), [name, octave], list(attrs(m2)), tags=tags)
@@ -353,6 +366,7 @@ LIMIT = {"velocity": 127, "channel": 15}
 
 def run_bounds(case):
     S = engine.S
+    S.sample(case)
     via, field, value = case
     ok_expected = 0 <= value <= LIMIT[field]
     n = None
@@ -402,7 +416,7 @@ def run_bounds(case):
 # ---------------------------------------------------------------------------------------
 # malformed names
 # ---------------------------------------------------------------------------------------
-MAL_ALPHABET = ["C", "H", "#", "b", "x", "1", "-", " "]
+MAL_ALPHABET = ["C", "H", "#", "b", "z", "1", "-", " "]
 
 
 def classify_text(s):
@@ -411,10 +425,10 @@ def classify_text(s):
     if re.match(r"^[A-G][#b]*(-[0-9]+)?$", s):
         return "valid"
     if s and s[0] in "abcdefg":
-        return "ambiguous"
+        return "ambiguous"                      # a lower-case note name
     t = s.replace(" ", "")
-    if t != s and re.match(r"^[A-G][#b]*(-[0-9]+)?$", t):
-        return "ambiguous"
+    if re.match(r"^[A-G][#b]*-?-?[0-9]+$", t) or (t != s and re.match(r"^[A-G][#b]*$", t)):
+        return "ambiguous"                      # blanks, scientific 'C4', negative octave 'C--1'
     return "malformed"
 
 
@@ -423,7 +437,7 @@ def malformed_texts(maxlen):
     for k in range(1, maxlen + 1):
         for tup in itertools.product(MAL_ALPHABET, repeat=k):
             out.append("".join(tup))
-    extra = ["C-4-5", "C-x", "C#-", "-4", "H-4", "C4", "Cx", "C-4.5", "C--1", "4", "#C", "bC", "C-#", "Z", "c#-x-", "Do", "C♯", "C♭"]
+    extra = ["C-4-5", "C-x", "C#-", "-4", "H-4", "Cz", "C-4.5", "4", "#C", "C-#", "Z", "Do", "C-4-", "C#-b", "I", "C-4#"]
     res = []
     for s in out + extra:
         if classify_text(s) == "malformed" and s not in res:
@@ -433,6 +447,7 @@ def malformed_texts(maxlen):
 
 def run_malformed(case):
     S = engine.S
+    S.sample(case)
     text, via = case
     if classify_text(text) != "malformed":
         raise engine.HarnessError("not a malformed text: %r" % text)
@@ -464,6 +479,7 @@ def run_malformed(case):
 def run_wellformed(case):
     """non-vacuity companion of run_malformed: every well-formed text is accepted."""
     S = engine.S
+    S.sample(case)
     text, via = case
     if classify_text(text) != "valid":
         raise engine.HarnessError("not a valid text: %r" % text)
@@ -539,6 +555,7 @@ def mutate(n, mu):
 
 def run_copy(case):
     S = engine.S
+    S.sample(case)
     name, octave, velocity, channel, how = case
     calls = 0
     for mu in MUTATIONS:
@@ -610,12 +627,12 @@ def explore(ctx):
         ctx.bound("integers", [0, 127])
         ctx.serial("from_int", list(range(0, 128)))
     if ctx.want("compare"):
-        olo, ohi = ctx.pick((3, 5), (0, 9))
+        olo, ohi = 0, 9
         ctx.bound("comparison_octaves", [olo, ohi])
         ctx.product("compare", list(range(olo, ohi + 1)),
                     lambda o: ([nm, o, olo, ohi] for nm in names))
     if ctx.want("sorting"):
-        olo, ohi = ctx.pick((3, 5), (0, 9))
+        olo, ohi = 0, 9
         ctx.serial("sorting", [[olo, ohi, s] for s in (1, 11, 13, 17, 97, 101)])
     if ctx.want("hertz"):
         sps = ctx.pick(STANDARD_PITCHES_Q, STANDARD_PITCHES_T)
@@ -642,7 +659,7 @@ def explore(ctx):
         ctx.bound("malformed_texts", {"alphabet": MAL_ALPHABET, "max_length": maxlen, "count": len(texts)})
         ctx.product("malformed", ["ctor", "ctor_octave", "set_note"], lambda via: ([t, via] for t in texts))
     if ctx.want("wellformed"):
-        good = [nm for nm in names] + ["%s-%d" % (nm, o) for nm in names for o in (0, 4, 9, 10)]
+        good = [nm for nm in names] + ["%s-%d" % (nm, o) for nm in names for o in (0, 4, 9)]
         ctx.serial("wellformed", [[t, via] for via in ("ctor", "set_note") for t in good])
     if ctx.want("copy"):
         cnames = ctx.pick(P.canon_names(1) + ["C#b", "Bb#"], names)
@@ -661,15 +678,11 @@ def explore(ctx):
         ctx.guard("velocity/channel accepted", ctx.counter("bounds_accepted"), 6 * (128 + 16))
         ctx.guard("velocity/channel rejected", ctx.counter("bounds_rejected"), 6 * (5 + 5))
         ctx.guard("malformed names rejected", ctx.counter("malformed_rejected"), 500)
-        ctx.guard("well-formed names accepted", ctx.counter("wellformed_accepted"), 400)
+        ctx.guard("well-formed names accepted", ctx.counter("wellformed_accepted"), 390)
         ctx.guard("copy mutations that changed the mutated note", ctx.counter("copy_mutations_effective"), 1000)
     if ctx.counter("negative_pitch_number_skipped_for_from_int"):
         ctx.note("%d (name, octave) cases have a negative pitch number and were not judged for re-entry from an integer"
                  % ctx.counter("negative_pitch_number_skipped_for_from_int"))
-
-
-def _flat_helmholtz(rec):
-    return False
 
 
 KNOWN = {}
